@@ -91,6 +91,8 @@ PropC08(e) == e.ev = "layout" =>
      /\ DiagsCorrespond(a.errs, b.errs, ta, tb)                      \* diagnostics keep their text and move with their token
      /\ DiagsCorrespond(a.warns, b.warns, ta, tb)
 AgreeC08(e) == e.ev = "layout" => LayoutPair(e) /\ Real(e.r1) = Model(e.r1) /\ Real(e.r2) = Model(e.r2)
+\* (systematic sweeps also try separators that are none - nothing, VT - where the two texts are not the same tokens)
+AgreeC08e(e) == e.ev = "layout" => Real(e.r1) = Model(e.r1) /\ Real(e.r2) = Model(e.r2)
 
 \* ------------------------------------------------------------------ C19: messages of one text are parsed independently
 RECURSIVE JoinTexts(_, _, _)
@@ -140,6 +142,7 @@ InvC04 == l > 0 => PropC04(E)
 InvAgreeC04 == l > 0 => AgreeC04(E)
 InvC08 == l > 0 => PropC08(E)
 InvAgreeC08 == l > 0 => AgreeC08(E)
+InvAgreeC08e == l > 0 => AgreeC08e(E)
 InvC19 == l > 0 => PropC19(E)
 InvAgreeC19 == l > 0 => AgreeC19(E)
 InvC15v == l > 0 => PropC15v(E)
